@@ -38,6 +38,21 @@ CHECKS.update({
    technique="exhaustive program enumeration; per-iteration conformance replay + outcome-set equality"),
 })
 
+CHECKS.update({
+ "C04": dict(level="model_checking", design="DESIGN.md 5 (C04)",
+   text="Two conflicting cell accesses are inserted at every pair of positions into every small synchronisation program (message passing over one atomic with all orderings/fences/RMWs and guards; locks, channels, Notify, condvars, park/unpark); the reference decides whether some consistent execution leaves them unordered by happens-before and loom must panic with a causality violation iff so.",
+   note="Trusted: RC11 happens-before (atomics, fences, release sequences) and SC-machine vector clocks built from exactly the edges the property names; with_mut/unsync_load modelled as non-atomic accesses of the atomic's location.",
+   technique="exhaustive program enumeration; race existence over all reference executions vs. loom's verdict"),
+ "C10": dict(level="model_checking", design="DESIGN.md 5 (C10)",
+   text="Programs that create arcs, tracked values, raw allocations and channel messages and release, forget or conditionally release them (on the result of a CAS race), plus the ARC family with forget: loom must end with the matching leak panic iff some terminated reference execution leaks.",
+   note="Trusted: SC machine; objects still held by the harness at the end are released by it, so only forgotten / never-freed ones count.",
+   technique="exhaustive program enumeration + explicit-state search for leaking terminal states vs. loom's verdict"),
+ "C11": dict(level="model_checking", design="DESIGN.md 5 (C11), 2.4",
+   text="Every program of the ARC family (clone, drop, count, get_mut, try_unwrap, ptr_eq, raw round trips, increment/decrement_strong_count in 2-4 threads): every iteration's history is replayed on a reference-count automaton (results at linearisation points, payload dropped exactly once by the decrement reaching zero), outcome sets equal, payload-Drop cell never races.",
+   note="Trusted: reference-count automaton; payload drops are attributed by a per-arc counter read before/after the call.",
+   technique="exhaustive program enumeration; per-iteration conformance replay + outcome-set equality"),
+})
+
 NOT_YET = {}
 
 def main():
